@@ -97,3 +97,15 @@ Theorem tie_term_dispatch fl reason s :
 Proof.
   unfold handle_msg, gen_term_reject, gen_term_reply. destruct (in_sess s), (in_term s); reflexivity.
 Qed.
+
+(** send_bundle_data -> _add_queue_item: refused (RuntimeError to the caller,
+    nothing else changes) exactly when the generated guard says so; otherwise
+    the bundle is queued under a fresh id and a queue run is requested. *)
+Theorem tie_send_bundle s data : closed s = false ->
+  step s (OSend data) =
+  if gen_add_queue_refused (in_sess s) (in_term s) then emit (EExc EX_RUNTIME) s
+  else
+    emit (ERet 1 (PStrNum (next_id s)))
+         (pq_trigger (s <| next_id := next_id s + 1 |> <| pend_start := pend_start s ++ [(next_id s, data)] |>
+                        <| tx_map := dict_set (next_id s) 0 (tx_map s) |>)).
+Proof. intros Hc. unfold step, gen_add_queue_refused. rewrite Hc. destruct (in_term s); reflexivity. Qed.
